@@ -1,7 +1,7 @@
 (* C17 property theorems only.  Each is closed by [exact] of a lemma of
    Proofs_C17 and followed by Print Assumptions. *)
 From Coq Require Import List NArith ZArith Bool PeanoNat.
-From Verif Require Import Common.Str Common.Json C17.Model_C17 C17.Proofs_C17.
+From Verif Require Import Common.Str Common.Json C17.Model_C17 C17.Proofs_C17 C17.AsmProofs_C17.
 Import ListNotations.
 
 (* every example of the extracted list occurs unchanged in some combination
@@ -144,3 +144,78 @@ Proof.
   split; [exists exs_demo; exact exs_demo_ok | exists gen_demo; split; [exact gen_demo_contract | exact merge_demo]].
 Qed.
 Print Assumptions C17_hypotheses_satisfiable.
+
+(* ---- case assembly with object identity (Model_C17 section 7) ---- *)
+
+(* The sequence [generate_one(strategy) for strategy in get_strategies_from_examples()] over a heap of dict
+   objects - get_parameters_value on the container OBJECT of the combination, then serialize_components
+   writing into the object the case holds, one case after the other - equals the pure per-case value:
+   serializer applied ONCE to (example container merged with the draw), whatever the serializer, the draws,
+   the number of cases and the sharing of container objects between the combinations; the source objects keep
+   their contents; the containers of the cases are new and pairwise distinct objects. *)
+Theorem C17_cases_independent : forall draw ser h0 rcs,
+  wf_refs h0 rcs = true -> all_drawn draw h0 0 rcs = true ->
+  wires CopyWhenDrawn draw ser h0 rcs = values_from draw ser h0 0 rcs /\
+  firstn (length h0) (fst (assemble CopyWhenDrawn draw ser h0 rcs)) = h0 /\
+  NoDup (case_addrs (snd (assemble CopyWhenDrawn draw ser h0 rcs))) /\
+  (forall a, In a (case_addrs (snd (assemble CopyWhenDrawn draw ser h0 rcs))) -> length h0 <= a).
+Proof. exact cases_independent. Qed.
+Print Assumptions C17_cases_independent.
+
+(* the identity-level produce_combinations (which objects are shared between the combinations) denotes the
+   value-level one of the theorems above *)
+Theorem C17_ref_combinations_sound : forall exs, containers_ok exs = true ->
+  map (deref (fst (ref_combinations exs))) (snd (ref_combinations exs)) = map containers (produce_combinations exs) /\
+  wf_refs (fst (ref_combinations exs)) (snd (ref_combinations exs)) = true.
+Proof. exact ref_combinations_sound. Qed.
+Print Assumptions C17_ref_combinations_sound.
+
+(* region nothing_to_fill (every parameter of every explicit container has an example): every case carries,
+   for every container, the example container serialized exactly once - in EVERY case of the sequence *)
+Theorem C17_serialized_once_partial : forall draw ser h0 rcs,
+  wf_refs h0 rcs = true -> nothing_to_fill draw h0 0 rcs = true ->
+  wires CopyWhenDrawn draw ser h0 rcs = examples_serialized_once ser h0 rcs.
+Proof. exact example_serialized_once_partial. Qed.
+Print Assumptions C17_serialized_once_partial.
+
+(* ... stated on example lists, through produce_combinations *)
+Theorem C17_examples_serialized_once_partial : forall exs draw ser, containers_ok exs = true ->
+  nothing_to_fill draw (fst (ref_combinations exs)) 0 (snd (ref_combinations exs)) = true ->
+  wires CopyWhenDrawn draw ser (fst (ref_combinations exs)) (snd (ref_combinations exs)) =
+  map (fun c => map (fun cd => (fst cd, Some (ser (fst cd) (snd cd)))) (containers c)) (produce_combinations exs).
+Proof. exact examples_once_end_to_end. Qed.
+Print Assumptions C17_examples_serialized_once_partial.
+
+(* outside the region (finding F7): the fill-in strategy already maps the drawn object through the style
+   serializer, serialize_components applies it again to the merged container - the generated parameter goes out
+   serialized twice (witness: a = 5 explicit, b = 3 generated, matrix style: a = ;a=5 but b = ;b=;b=3) *)
+Theorem C17_serialized_once_refuted : exists ser post raw h0 rcs,
+  wf_refs h0 rcs = true /\ all_drawn (draw_of_strategy ser post raw) h0 0 rcs = true /\
+  wires CopyWhenDrawn (draw_of_strategy ser post raw) ser h0 rcs <> values_from raw ser h0 0 rcs.
+Proof. exact fill_in_serialized_once_refuted. Qed.
+Print Assumptions C17_serialized_once_refuted.
+
+(* SENTINEL rule, not the code (seed C17_c: if not new: return value): one path parameter with one example and
+   three body examples - the three cases hold ONE dict serialized three times, no case carries the example
+   serialized once, although the rule of the code does *)
+Theorem C17_shared_container_refuted : exists exs ser draw,
+  let hr := ref_combinations exs in
+  wf_refs (fst hr) (snd hr) = true /\ nothing_to_fill draw (fst hr) 0 (snd hr) = true /\
+  wires ShareWhenNothingNew draw ser (fst hr) (snd hr) <> examples_serialized_once ser (fst hr) (snd hr) /\
+  wires CopyWhenDrawn draw ser (fst hr) (snd hr) = examples_serialized_once ser (fst hr) (snd hr) /\
+  ~ NoDup (case_addrs (snd (assemble ShareWhenNothingNew draw ser (fst hr) (snd hr)))).
+Proof. exact shared_container_refuted. Qed.
+Print Assumptions C17_shared_container_refuted.
+
+(* non-vacuity: two parameter combinations cycled over three bodies *)
+Theorem C17_assembly_hypotheses_satisfiable :
+  let hr := ref_combinations exs_two in
+  length (snd hr) = 3 /\ wf_refs (fst hr) (snd hr) = true /\
+  all_drawn raw_fill_b (fst hr) 0 (snd hr) = true /\
+  nothing_to_fill draw_nothing (fst hr) 0 (snd hr) = true /\
+  wires CopyWhenDrawn draw_nothing ser_matrix (fst hr) (snd hr) =
+    [[(s_path_parameters, Some [(s_id, JStr [59;105;100;61;53]%N)])];
+     [(s_path_parameters, Some [(s_id, JStr [59;105;100;61;54]%N)])];
+     [(s_path_parameters, Some [(s_id, JStr [59;105;100;61;53]%N)])]].
+Proof. exact assembly_hypotheses_satisfiable. Qed.
+Print Assumptions C17_assembly_hypotheses_satisfiable.
